@@ -10,6 +10,7 @@ from pathlib import Path
 KIND_ANNOTATION = {
     'dict': 'dict', 'list': 'list', 'str': 'str', 'int': 'int', 'numpy': '_np.ndarray', 'frame': '_pd.DataFrame',
     'generator': '_Gen', 'lazy': '_Gen', 'gen_empty': '_Gen', 'mock': 'object', 'continues': '_tcd.ContinuesData', 'list_numpy': 'list', 'dir': '_tc.DirData', 'memory': '_objs.MemValue',
+    'figure': '_Figure',
 }
 KIND_DATA_CLASS = {'lazy': '_tcd.GeneratedDataLazy', 'list_numpy': '_tcd.ListOfNumpyData',
                    'mock': '_tc.InMemoryData'}
@@ -142,6 +143,7 @@ def module_source(program, mi):
         'import taskchain.data as _tcd',
         'from taskchain.parameter import Parameter as _P, InputTaskParameter as _ITP',
         'import numpy as _np',
+        'from matplotlib.figure import Figure as _Figure',
         'import pandas as _pd',
         'from pathlib import Path as _Path',
         'from typing import Generator as _Gen',
